@@ -10,7 +10,7 @@
     of props/C02/check.py (testing, said so in meta.json). *)
 From Coq Require Import ZArith List Bool.
 From V.C03 Require Import PyAst.
-From V.C02 Require Import Ast Builder Witness ProofsSimple.
+From V.C02 Require Import Ast Builder Witness ProofsSimple ProofsTotal.
 Import ListNotations.
 
 (** For every source program (any statement/expression of [Ast], any nesting), if the builder
@@ -32,6 +32,40 @@ Example builder_output_simple_nonvacuous :
   (exists g n, build w_for_def true = Built g n /\ length n = 1) /\
   (exists g n, build w_nested_comp true = Built g n).
 Proof. vm_compute. repeat split; eauto; repeat eexists; repeat constructor. Qed.
+
+(** Totality.  The model is a structurally recursive function (no fuel except in the reachability
+    worklist, shown adequate), so it always returns; this theorem says WHAT it returns: for every
+    program obeying CPython's compile-time rule for break/continue ([loops_ok_list false]: inside a
+    loop of the same function), the builder returns a CFG, or one of the user-error classes
+    (UnsupportedError for loop-else / unsupported statement / illegal expression in a comprehension,
+    EmptyComptimeExprError, ExpectedError "return statement") -- never the InternalGuppyError
+    "Break/Continue BB not defined", never out of fuel -- or the model declines ([ErrUnmodelled]) and
+    then the program contains a chained comparison with a lifted middle operand ([chain_mid_stmts],
+    a syntactic predicate): for exactly those programs only the differential check speaks. *)
+Theorem builder_total : forall p returns_none,
+  loops_ok_list false p = true ->
+  match build p returns_none with
+  | Built _ _ => True
+  | Rejected e => user_error e = true \/ (e = ErrUnmodelled /\ chain_mid_stmts p = true)
+  end.
+Proof. exact build_total. Qed.
+Print Assumptions builder_total.
+
+(** The hypothesis is needed and the declined case is inhabited: *)
+Example builder_total_hypothesis_needed :
+  loops_ok_list false w_break_outside = false /\ build w_break_outside true = Rejected ErrNoLoop.
+Proof. split; reflexivity. Qed.
+Example builder_total_declines_on :
+  loops_ok_list false w_chain_mid = true /\ build w_chain_mid true = Rejected ErrUnmodelled /\
+  chain_mid_stmts w_chain_mid = true.
+Proof. repeat split; reflexivity. Qed.
+Example builder_total_user_errors_inhabited :
+  build (SCons (SWhile (v 0) (SCons SPass SNil) (SCons SPass SNil)) SNil) true = Rejected ErrLoopElse /\
+  build (SCons (SOther 0) SNil) true = Rejected ErrUnsupportedStmt /\
+  build (SCons (SExpr (EComptime ENil)) SNil) true = Rejected ErrEmptyComptime /\
+  build (SCons (SDef SNil false) SNil) true = Rejected ErrExpectedReturn /\
+  build (SCons (SExpr (EComp KGen (EIf (v 0) (v 1) (v 2)) (GCons (v 1) (v 3) ENil GNil))) SNil) true = Rejected ErrIllegalInComp.
+Proof. repeat split; reflexivity. Qed.
 
 (** Tie of the spec-side predicate to the source: [GenCrash.crash_visitors] is regenerated from
     checker/expr_checker.py on every run (the ExprSynthesizer visitors that unconditionally raise
